@@ -409,7 +409,11 @@ func (p ShortestAlts) To(vid int64) (path []graph.Node, weight float64, unique b
 // containing zero-weight cycles are not returned. If a negative cycle exists between
 // u and v, paths is returned nil and weight is returned as -Inf.
 func (p ShortestAlts) AllTo(vid int64) (paths [][]graph.Node, weight float64) {
-	from := p.indexOf[p.from.ID()]
+	from, fromOK := p.indexOf[p.from.ID()]
+	if !fromOK {
+		// The source is not in the graph.
+		return nil, math.Inf(1)
+	}
 	to, toOK := p.indexOf[vid]
 	if !toOK || len(p.next[to]) == 0 {
 		if p.from.ID() == vid {
@@ -436,7 +440,11 @@ func (p ShortestAlts) AllTo(vid int64) (paths [][]graph.Node, weight float64) {
 // cycles are not considered. If a negative cycle exists between u and v, no
 // path is considered. The fn closure must not retain the path parameter.
 func (p ShortestAlts) AllToFunc(vid int64, fn func(path []graph.Node)) {
-	from := p.indexOf[p.from.ID()]
+	from, fromOK := p.indexOf[p.from.ID()]
+	if !fromOK {
+		// The source is not in the graph.
+		return
+	}
 	to, toOK := p.indexOf[vid]
 	if !toOK || len(p.next[to]) == 0 {
 		if p.from.ID() == vid {
